@@ -150,6 +150,7 @@ class StreamWriterModel:
         raise Unsupported(f"get_extra_info({key!r})")
 
     def m_write(self, interp, obj, args, kwargs, fr):
+        interp.unit_call_requires("transport.write", fr)
         _net(interp, "write", ops.as_payload(interp.ctx, args[0]))
         return None
 
@@ -222,6 +223,7 @@ class TrioStreamModel:
         return v
 
     def m_send_all(self, interp, obj, args, kwargs, fr):
+        interp.unit_call_requires("transport.write", fr)
         _net(interp, "send_all", ops.as_payload(interp.ctx, args[0]))
         interp.yield_point(fr, "stream.send_all")
         _raise_one(interp, fr, f"send_all@{fr.line}", [trio.BrokenResourceError, trio.ClosedResourceError])
